@@ -41,8 +41,7 @@ def _build(c):
         from mrpro.data import SpatialDimension
         from mrpro.operators import FourierOp
         from props import C03
-        traj, _ = C03._traj(c)
-        return FourierOp(SpatialDimension(*c['recon']), SpatialDimension(*c['enc']), traj), [1, 1, *c['recon']]
+        return C03.build_fourier(c), [1, 1, *c['recon']]
     return opzoo.build(c)
 
 
@@ -80,6 +79,12 @@ def impl(c):
             ahw = ahw.real
     scale = float(max(1.0, ahw.abs().max()))
     res['first'] = float((gx.detach() - ahw).abs().max()) / scale
+    if c['cls'] == 'FourierOp' and x.numel() <= 64:
+        # independent of op.adjoint: A^H w from the dense forward matrix (basis vectors)
+        with torch.no_grad():
+            Fd, _, _ = (opzoo.dense(op, in_shape, dt)[0], None, None)
+        ref = torch.from_numpy(Fd.conj().T @ w.reshape(-1).to(torch.complex128).numpy()).reshape(x.shape)
+        res['first_dense'] = float((gx.detach().to(torch.complex128) - ref).abs().max()) / float(max(1.0, ref.abs().max()))
     res['gx_finite'] = bool(torch.isfinite(torch.view_as_real(gx.detach()) if gx.is_complex() else gx.detach()).all())
     # second order: d/dw Re<v, gx(w)> = A v (gx is linear in w)
     w2 = w.clone().requires_grad_(True)
@@ -130,6 +135,9 @@ def oracle(c, o):
         tol = TOL['FourierOpNUFFT']
     if c['cls'] == 'GridSamplingOp' or 'float32' in o['dt'] or 'complex64' in o['dt']:
         tol = max(tol, 2e-5)
+    if 'first_dense' in o and o['first_dense'] > 1e-7:
+        return (f'FourierOp: autograd gradient differs from conj(F)^T w with F the dense forward matrix: relative {o["first_dense"]:.3g} '
+                f'(kbwidth {c.get("kbwidth", "default")}, paths nufft={o["nufft"]})')
     for key, what in (('first', 'autograd gradient w.r.t. the input != A^H (gradient at the output)'),
                       ('second', 'second-order derivative (gradient of the gradient w.r.t. the cotangent) != A v'),
                       ('jvp', 'forward-mode derivative != A (tangent)'),
@@ -175,6 +183,9 @@ def gen_param(rng, tier):
             c['interp'], c['complex'] = 'bilinear', False
             # keep away from the kinks of bilinear interpolation (integer pixel positions) for finite differences
             c['grid'] = [g + 0.03 for g in c['grid']]
+            c['via_adjoint'] = i % 4 == 2
+            if c['via_adjoint']:
+                c['pad'] = ['border', 'reflection', 'zeros'][(i // 4) % 3]
         c['seed'] = rng.randrange(10 ** 6)
         out.append(c)
     return out
@@ -200,6 +211,13 @@ def impl_param(c):
             if pp is p:
                 return op(x)[0]
             return ops.EinsumOp(pp.detach(), c['rule'])(x)[0]
+    if c['cls'] == 'GridSamplingOp' and c.get('via_adjoint'):
+        # gradient of <w, A(grid)^H u> w.r.t. the grid (AdjointGridSample.backward w.r.t. the grid)
+        u = torch.randint(-3, 4, list(op(x)[0].shape), generator=g).to(torch.float64)
+
+        def f(pp):  # noqa: F811
+            op.grid = pp
+            return op.adjoint(u)[0]
     y = f(p)
     w = _rand(list(y.shape), g, y.dtype)
     (gp,) = torch.autograd.grad(_loss(y, w), p)
